@@ -60,7 +60,9 @@ idempotence (`int_norm_idem`).  Still missing: injectivity normal form -> polyno
 sorted monomial list is determined by its `convert_to_poly` list; `fsB` with exponents), which with
 closure gives `int_norm_canonical` and `int_norm_eq_canonical`.  `simp_full` does not expand powers
 of non-atomic bases ((i + j)^2 stays an atom), so canonicity can only hold on the fragment
-`atomicPowers`.  Canonicity is compared against the independent evaluator every run. -/
+`atomicPowers`, and -- see the example below the theorem -- only for exponents other than 0: both
+the model and the code keep `i ^ 0` (normal form `i ^ 0`, not `1`).  Canonicity is compared against
+the independent evaluator every run. -/
 theorem int_norm_canonical_partial (a b : IExp) :
     toPoly (embI (intNorm a)) = toPoly (embI a) ∧
     (intNorm a = intNorm b → toPoly (embI a) = toPoly (embI b)) := by
@@ -69,6 +71,13 @@ theorem int_norm_canonical_partial (a b : IExp) :
   exact ⟨inv a, fun h => by rw [← inv a, ← inv b, h]⟩
 
 example : toPoly (embI (intNorm (.mul (.atom 0 1) (.atom 0 1)))) = [([(0, 2)], 1)] := by decide
+
+/- why `int_norm_canonical` needs more than `atomicPowers`: `i ^ 0` and `1` have the same value under
+every valuation but distinct normal forms (`data/integer.py` agrees: `int_norm_conv` leaves `i ^ 0`) -/
+example : atomicPowers (.pow (.atom 0 1) 0) = true ∧
+    (∀ ρ, evalI ρ (.pow (.atom 0 1) 0) = evalI ρ (.num 1)) ∧
+    intNorm (.pow (.atom 0 1) 0) ≠ intNorm (.num 1) :=
+  ⟨by decide, fun ρ => by simp [evalI], by decide⟩
 
 /-- The model's `fast_compare` on numeral exponents (size of the binary numeral term, `one` before
 `zero`, then the digits least significant first) is a strict total order. -/
